@@ -262,6 +262,24 @@ func checkC02(c *core.Ctx) {
 		c.Extra("hugedoc_bytes", len(p.YAML(model.YAMLStyle{})))
 	})
 
+	// one very long line (a lyric of 70..200 KB on one line) in the middle of a short piece, with the line ends of
+	// either platform and in block or flow style: the instances behind it are played like the ones before
+	c.Stream("longline", 8, func(i int, r *rand.Rand) {
+		var p model.Piece
+		for k := 0; k < 8; k++ {
+			in := model.Instance{Chord: chord(r), Values: []model.Frac{{Num: uint64(1 + k%3), Den: uint64(1 + k%2)}}}
+			if k == 2+i%3 {
+				in.Meta = map[string]string{[]string{"lic", "txt"}[i%2]: strings.Repeat("la ", 24000+20000*(i%3))}
+			}
+			if k == 6 {
+				in.Chord = nil
+			}
+			p.Inst = append(p.Inst, in)
+		}
+		o := writeOpts{encoding: []string{"crlf", ""}[i/4%2], style: model.YAMLStyle{FlowValues: i%2 == 1}, viaFile: i%4 >= 2}
+		judgeTiming(c, "longline", i, p, model.Flags{Track: 1 + i%3}, o, "")
+	})
+
 	// ordinary values written with huge numerals (n*k)/(d*k), the larger numeral just below 2^54, 2^60, 2^63, 2^64
 	type hn struct{ n, d uint64 }
 	hbases := []hn{{3, 2}, {1, 1}, {1, 2}, {5, 4}, {7, 8}, {2, 3}, {1, 64}, {9, 1}}
